@@ -63,6 +63,9 @@ type Case struct {
 	TarFmt    string `json:"tarFmt,omitempty"`
 	// cross-repository mounting (remote destination): MountFrom answers per blob,
 	// Holds pre-populates sibling repositories of the destination registry
+	// CustomFind: CopyGraphOptions.FindSuccessors is set (to a thin wrapper of
+	// content.Successors that records its calls)
+	CustomFind bool `json:"customFind,omitempty"`
 	// Clash (file-store destination): the names (titles) of these nodes are already
 	// taken in the destination by OTHER content
 	Clash     []int       `json:"clash,omitempty"`
@@ -357,6 +360,11 @@ func (e *Env) graphOptions() oras.CopyGraphOptions {
 			return e.Rec.Callback(ctx, "OnCopySkipped", desc)
 		}
 	}
+	if e.C.CustomFind {
+		o.FindSuccessors = func(ctx context.Context, fetcher content.Fetcher, desc ocispec.Descriptor) ([]ocispec.Descriptor, error) {
+			return content.Successors(ctx, fetcher, desc)
+		}
+	}
 	if e.C.UseMount {
 		byDigest := map[string][]string{}
 		for _, m := range e.C.MountFrom {
@@ -531,7 +539,10 @@ func GenBase(t *rapid.T, o gen.DAGOpts, srcKinds, dstKinds []string) Case {
 	if c.SrcKind == "file" || c.DstKind == "file" {
 		o.Titles = true
 	}
-	if baseKind(c.SrcKind) == "oci" || c.DstKind == "oci" || c.SrcKind == "file" || c.DstKind == "file" {
+	if o.AliasToOCI && c.SrcKind == "memory" && c.DstKind == "oci" {
+		// the caller copes with a digest-addressed destination holding one digest
+		// for two media types
+	} else if baseKind(c.SrcKind) == "oci" || c.DstKind == "oci" || c.SrcKind == "file" || c.DstKind == "file" {
 		// digest-addressed stores hold one media type per digest (the file store
 		// indexes named content by digest)
 		o.SingleMT = true
